@@ -44,3 +44,9 @@ def tcpFields (tcp : TcpF) : Nat × Bool × Int × QSet :=
   (flags, tcpType flags == F_SYN, (tcp.dataofs * 4 : Nat), q)
 
 end P0f
+
+namespace P0f
+/-- `TCPOptions(...)` as the tuple of its fields (layout, quirks, mss, timestamp, window_scale, eol_padding_length) -/
+def optsTuple (o : Opts) : List Nat × QSet × Nat × Nat × Nat × Int :=
+  (o.layout, o.quirks, o.mss, o.ts, o.ws, (o.eolPad : Int))
+end P0f
